@@ -449,7 +449,7 @@ func c13Search() {
 			sum.Failures++
 			trimTape(sc.Tape, o.stats)
 			emit(outRec{T: "fail", Property: "C13", Seed: runSeed, Class: o.class, Sig: o.sig, Detail: o.detail, Replay: sc,
-				Extra: map[string]interface{}{"trace": traceStrings(o.trace, 40)}})
+				Extra: map[string]interface{}{"trace": traceStrings(o.trace, 40), "history": historyInfo(idx)}})
 			if o.class == "race" || o.class == "harness-race" {
 				// The detector de-duplicates reports per process: stop and let the
 				// driver continue the remaining seeds in a fresh process.
